@@ -52,6 +52,7 @@ type Machine struct {
 	alts   [][]int64 // alternatives discovered on this path
 
 	pc        []*Term
+	pcSet     map[*Term]bool
 	asserted  int
 	lastModel Model
 
